@@ -127,6 +127,42 @@ fn decorated_text(t: &mut Tape) -> Vec<u8> {
     out.into_bytes()
 }
 
+
+/// The oracle: every terminated output line ends in the default rendition, with no hyperlink
+/// open and the byte parser in ground state; no control sequence other than SGR, EL, OSC 8.
+/// Ok(true) when some line has >= 4 rendition changes.
+pub fn judge(cfg: &Cfg, input: &[u8], out: &[u8], ident: &[String]) -> Result<bool, Failure> {
+    let sc = term::decode(out);
+    let detail = || json!({"case": exec::case_json(cfg, input), "identity": ident});
+    let mut busy = false;
+    for (i, r) in sc.rows.iter().enumerate() {
+        let line = || {
+            let start = out.split(|b| *b == b'\n').nth(i).unwrap_or(b"");
+            exec::printable(&start[..start.len().min(400)])
+        };
+        if !r.terminated {
+            continue;
+        }
+        if r.end_in_sequence {
+            return Err(Failure::new("C09:sequence-cut", format!("output line {} ends inside an escape sequence: `{}`", i + 1, line())).with(detail()).traits(crate::props::c03::failure_traits(cfg, input)));
+        }
+        if !r.end_sgr.is_default() {
+            return Err(Failure::new("C09:rendition-leaks", format!("output line {} ends with a non-default rendition {:?}: `{}`", i + 1, r.end_sgr, line())).with(detail()).traits(crate::props::c03::failure_traits(cfg, input)));
+        }
+        if r.end_link_open {
+            return Err(Failure::new("C09:hyperlink-left-open", format!("output line {} ends with an OSC 8 hyperlink still open: `{}`", i + 1, line())).with(detail()).traits(crate::props::c03::failure_traits(cfg, input)));
+        }
+        if let Some(c) = r.other_controls.first() {
+            // raw-styled elements carry the input's own sequences: only SGR/EL/OSC 8 are generated
+            return Err(Failure::new("C09:unexpected-control", format!("output line {} contains `{}`: `{}`", i + 1, c, line())).with(detail()).traits(crate::props::c03::failure_traits(cfg, input)));
+        }
+        if r.sgr_count >= 4 {
+            busy = true;
+        }
+    }
+    Ok(busy)
+}
+
 impl Prop for C09 {
     fn id(&self) -> &'static str {
         "C09"
@@ -199,34 +235,10 @@ impl Prop for C09 {
                 return Verdict::Fail(f);
             }
         };
-        let sc = term::decode(&out);
-        let detail = || json!({"case": exec::case_json(&cfg, &input), "identity": ident});
-        let mut busy = false;
-        for (i, r) in sc.rows.iter().enumerate() {
-            let line = || {
-                let start = out.split(|b| *b == b'\n').nth(i).unwrap_or(b"");
-                exec::printable(&start[..start.len().min(400)])
-            };
-            if !r.terminated {
-                continue;
-            }
-            if r.end_in_sequence {
-                return Verdict::Fail(Failure::new("C09:sequence-cut", format!("output line {} ends inside an escape sequence: `{}`", i + 1, line())).with(detail()).traits(crate::props::c03::failure_traits(&cfg, &input)));
-            }
-            if !r.end_sgr.is_default() {
-                return Verdict::Fail(Failure::new("C09:rendition-leaks", format!("output line {} ends with a non-default rendition {:?}: `{}`", i + 1, r.end_sgr, line())).with(detail()).traits(crate::props::c03::failure_traits(&cfg, &input)));
-            }
-            if r.end_link_open {
-                return Verdict::Fail(Failure::new("C09:hyperlink-left-open", format!("output line {} ends with an OSC 8 hyperlink still open: `{}`", i + 1, line())).with(detail()).traits(crate::props::c03::failure_traits(&cfg, &input)));
-            }
-            if let Some(c) = r.other_controls.first() {
-                // raw-styled elements carry the input's own sequences: only SGR/EL/OSC 8 are generated
-                return Verdict::Fail(Failure::new("C09:unexpected-control", format!("output line {} contains `{}`: `{}`", i + 1, c, line())).with(detail()).traits(crate::props::c03::failure_traits(&cfg, &input)));
-            }
-            if r.sgr_count >= 4 {
-                busy = true;
-            }
-        }
+        let busy = match judge(&cfg, &input, &out, &ident) {
+            Ok(b) => b,
+            Err(f) => return Verdict::Fail(f),
+        };
         let vis = String::from_utf8_lossy(&out);
         let involved = vis.contains('→') || vis.contains('↵') || vis.contains("\x1b]8;") || vis.contains("\x1b[0K") || vis.contains("  \x1b[0m");
         if busy && involved {
@@ -245,5 +257,80 @@ impl Prop for C09 {
     }
     fn supervisor_phase(&self, sup: &mut Sup) {
         crate::xcheck::binary_crosscheck(sup, false);
+    }
+    fn fuzz_decoders(&self) -> Vec<&'static str> {
+        vec!["C09", "C09R"]
+    }
+}
+
+// ---------------------------------------------------------------------------------------------
+// C09R — raw decoder for the coverage-guided tier: option set from the first tape values, the
+// rest is delta's input byte for byte.  Inputs containing ESC or other C0 controls are outside
+// the decoder's domain (the statement is about input whose own sequences are balanced; text
+// without any sequence is trivially so), which leaves hostile *text* for every handler: whatever
+// delta then writes must be well-formed on its own account.
+
+pub struct C09R;
+
+impl Prop for C09R {
+    fn id(&self) -> &'static str {
+        "C09R"
+    }
+    fn identities(&self) -> Vec<Vec<String>> {
+        identities()
+    }
+    fn cases(&self, _tier: Tier) -> usize {
+        0
+    }
+    fn tape_len(&self, _t: Tier) -> usize {
+        crate::props::c03::RAW_HEADER + 1536
+    }
+    fn rule(&self) -> String {
+        "raw decoder of C09 (coverage-guided tier only)".to_string()
+    }
+    fn assumptions(&self) -> Vec<String> {
+        Vec::new()
+    }
+    fn check(&self, t: &mut Tape, ctx: &mut Ctx) -> Verdict {
+        let mut head = t.fork(crate::props::c03::RAW_HEADER);
+        let cfg = gen_cfg(&mut head);
+        let mut input = t.rest_bytes();
+        while input.last() == Some(&0) {
+            input.pop();
+        }
+        if input.iter().any(|b| (*b < 0x20 && *b != b'\n' && *b != b'\t') || *b == 0x7f) {
+            return Verdict::Skip("raw input with control bytes");
+        }
+        // C1 controls (U+0080..U+009F, e.g. CSI as one character) are controls too
+        if String::from_utf8_lossy(&input).chars().any(|c| ('\u{80}'..='\u{9f}').contains(&c)) {
+            return Verdict::Skip("raw input with control bytes");
+        }
+        let ident = ctx.identity.clone();
+        ctx.class("raw-text");
+        let out = match exec::run_cfg(&cfg, ctx, &input) {
+            Ok(o) => o,
+            Err(mut f) => {
+                f.detail = json!({"case": exec::case_json(&cfg, &input)});
+                f.traits = crate::props::c03::failure_traits(&cfg, &input);
+                return Verdict::Fail(f);
+            }
+        };
+        match judge(&cfg, &input, &out, &ident) {
+            Ok(busy) => {
+                if busy {
+                    let mut h = fnv(&input);
+                    h = fnv_add(h, &cfg.fingerprint().to_le_bytes());
+                    ctx.nontrivial(h);
+                }
+                Verdict::Pass
+            }
+            Err(f) => Verdict::Fail(f),
+        }
+    }
+    fn fuzz_seeds(&self, seed: u64) -> Vec<Vec<u8>> {
+        crate::props::c03::raw_seeds(seed, true)
+    }
+    fn fuzz_decoders(&self) -> Vec<&'static str> {
+        Vec::new()
     }
 }
